@@ -1,14 +1,106 @@
-//! C06 oracle (deposit / withdraw round trips, value per market token) — see `liq.rs`.
+//! C06 oracle (deposit / withdraw round trips, value per market token, first deposit price).
+//! Exact arithmetic on the snapshots before/after each op; independent of the Lean model.
+//!
+//! Pool value in the generated C06 histories: there is no open interest and the position impact
+//! pool is empty, so `pool_value(maximize) = L·pL + S·pS` at the picked prices.
 use crate::liq::{Mem, P6};
 use crate::mkt::Snap;
 use hcommon::*;
+use num_bigint::BigUint;
 
-pub fn oracle(_out: &mut Out, _req: &str, t: &[&str], r: &[&str], b: &Snap, _a: &Snap, _cfg: &[u128], mem: &mut Mem) {
-    if t[1] == "deposit" && r[0] == "ok" {
-        if let Some(p) = P6::parse(&t[5..]) {
-            mem.last_deposit = Some((t[3].parse().unwrap(), t[4].parse().unwrap(), p, r[1].parse().unwrap(), r[2].parse().unwrap(), b.clone()));
-            return;
+fn big(x: u128) -> BigUint { BigUint::from(x) }
+
+fn pool_value(s: &Snap, p: &P6, maximize: bool) -> BigUint {
+    let (pl, ps) = if maximize { (p.lmax, p.smax) } else { (p.lmin, p.smin) };
+    big(s.pools[0].0) * big(pl) + big(s.pools[0].1) * big(ps)
+}
+
+fn no_positions(s: &Snap) -> bool { (3..16).all(|k| s.pools[k] == (0, 0)) }
+
+pub fn oracle(out: &mut Out, req: &str, t: &[&str], r: &[&str], b: &Snap, a: &Snap, cfg: &[u128], mem: &mut Mem) {
+    let divisor = cfg[28];
+    if t[1] == "deposit" {
+        let last = mem.last_deposit.take();
+        let _ = last;
+        if r[0] != "ok" { return; }
+        let Some(p) = P6::parse(&t[5..]) else { return };
+        let (dl, ds): (u128, u128) = (t[3].parse().unwrap(), t[4].parse().unwrap());
+        let minted: u128 = r[1].parse().unwrap();
+        let impact: i128 = r[2].parse().unwrap();
+        let fees: Vec<u128> = r[3..7].iter().map(|x| x.parse().unwrap()).collect(); // Lpool Lrecv Spool Srecv
+        // conservation per token side
+        if big(a.holdings(true)) != big(b.holdings(true)) + big(dl) || big(a.holdings(false)) != big(b.holdings(false)) + big(ds) {
+            out.oracle_fail("deposit: token holdings did not grow by exactly the deposited amounts", req);
+        }
+        if big(a.supply) != big(b.supply) + big(minted) { out.oracle_fail("deposit: supply did not grow by the minted amount", req); }
+        // first deposit into an empty pool: one USD per market token (amount units), rounded down per side
+        if b.supply == 0 && b.pools[0] == (0, 0) && no_positions(b) && divisor != 0 {
+            let net_l = a.pools[0].0 - fees[0];
+            let net_s = a.pools[0].1 - fees[2];
+            let expect = big(net_l) * big(p.lmin) / big(divisor) + big(net_s) * big(p.smin) / big(divisor);
+            if big(minted) != expect { out.oracle_fail("first deposit is not priced at one USD per market token", req); }
+            out.stat("deposit.first");
+        }
+        // no dilution: value per market token (at the deposit's own valuation: maximised) does not drop
+        if b.supply > 0 && no_positions(b) && p.lmin <= p.lmax && p.smin <= p.smax {
+            let (pb, pa) = (pool_value(b, &p, true), pool_value(a, &p, true));
+            if pa * big(b.supply) < pb * big(a.supply) { out.oracle_fail("deposit lowered the value of one market token for the existing holders", req); }
+            out.stat("deposit.dilution_checked");
+        }
+        if impact > 0 && a.pools[1] != b.pools[1] { out.stat("deposit.positive_impact_credited"); }
+        if impact < 0 { out.stat("deposit.negative_impact"); }
+        mem.last_deposit = Some((dl, ds, p, minted, impact, b.clone()));
+        mem.after_deposit = Some(a.clone());
+        mem.deposit_recv_fees = (fees[1], fees[3]);
+        return;
+    }
+    // withdraw
+    let last = mem.last_deposit.take();
+    let after_dep = mem.after_deposit.take();
+    if r[0] != "ok" { return; }
+    let Some(p) = P6::parse(&t[4..]) else { return };
+    let amount: u128 = t[3].parse().unwrap();
+    let (ol, os): (u128, u128) = (r[1].parse().unwrap(), r[2].parse().unwrap());
+    if big(a.holdings(true)) + big(ol) != big(b.holdings(true)) || big(a.holdings(false)) + big(os) != big(b.holdings(false)) {
+        out.oracle_fail("withdrawal: token holdings did not shrink by exactly the amounts paid out", req);
+    }
+    if big(a.supply) + big(amount) != big(b.supply) { out.oracle_fail("withdrawal: supply did not shrink by the burnt amount", req); }
+    if no_positions(b) && p.lmin <= p.lmax && p.smin <= p.smax {
+        let (pb, pa) = (pool_value(b, &p, false), pool_value(a, &p, false));
+        if pa * big(b.supply) < pb * big(a.supply) { out.oracle_fail("withdrawal lowered the value of one market token for the remaining holders", req); }
+        out.stat("withdraw.dilution_checked");
+    }
+    // round trip: this withdrawal burns exactly what the previous op (a deposit) minted, at the same prices
+    if let (Some((dl, ds, dp, minted, _impact, bd)), Some(ad)) = (last, after_dep) {
+        if minted == amount && dp.fmt() == p.fmt() && &ad == b {
+            out.stat("roundtrip.pairs");
+            let value_in = big(dl) * big(p.lmax) + big(ds) * big(p.smax);
+            let value_out = big(ol) * big(p.lmax) + big(os) * big(p.smax);
+            // positive impact credited by the deposit: tokens that left the swap impact pools
+            let credit = big(bd.pools[1].0.saturating_sub(ad.pools[1].0)) * big(p.lmax) + big(bd.pools[1].1.saturating_sub(ad.pools[1].1)) * big(p.smax);
+            let recv = big(mem.deposit_recv_fees.0) * big(p.lmax) + big(mem.deposit_recv_fees.1) * big(p.smax);
+            // leftover: pool value present while NO market token existed (pool fees kept after the last
+            // holder left, rounding dust): `usd_to_market_token_amount` mints `(pool + usd)/divisor` to
+            // the next depositor, i.e. hands him the leftover
+            let leftover = if bd.supply == 0 { pool_value(&bd, &p, true) } else { big(0) };
+            // the refined statement (must ALWAYS hold): out <= in + credited positive impact - receiver fees (+ leftover)
+            if p.lmin <= p.lmax && p.smin <= p.smax && value_out.clone() + recv > value_in.clone() + credit.clone() + leftover.clone() {
+                out.oracle_fail("round trip returned more than deposited + positive impact credited - fees", req);
+            }
+            if !(p.lmin <= p.lmax && p.smin <= p.smax) {
+                // min > max is not rejected by the model crate (`Prices::validate` only checks non-zero); the
+                // property speaks about prices, i.e. min <= max
+                out.stat("roundtrip.malformed_prices");
+            } else if value_out > value_in {
+                let surplus = value_out - value_in;
+                if bd.supply == 0 && leftover > big(0) && surplus <= leftover.clone() + credit.clone() {
+                    out.known("F-C06b", "deposit into a pool with value but zero supply: the depositor is minted the leftover pool value and withdraws it (surplus <= leftover pool value)", req);
+                } else if bd.supply > 0 && surplus <= credit && credit > big(0) {
+                    out.known("F-C06", "deposit->withdraw round trip returned more value than deposited (surplus <= positive swap impact credited by the deposit)", req);
+                } else {
+                    out.oracle_fail("round trip returned more value than deposited, beyond the credited positive impact", req);
+                }
+            } else if credit > big(0) { out.stat("roundtrip.credit_but_no_profit"); } else { out.stat("roundtrip.no_credit"); }
         }
     }
-    mem.last_deposit = None;
 }
